@@ -356,7 +356,11 @@ func (d doubleQuotes) String() string {
 
 // Loosely based on Pratt parser explained in this article: https://matklad.github.io/2020/04/13/simple-but-powerful-pratt-parsing.html
 func (p *Parser) term(maxPriority Integer) (Term, error) {
-	var lhs Term
+	var (
+		lhs Term
+		// The priority of lhs: that of its principal operator if it's written in operator notation, 0 otherwise.
+		lhsPriority Integer
+	)
 	switch op, err := p.prefix(maxPriority); err {
 	case nil:
 		_, rbp := op.bindingPriorities()
@@ -366,6 +370,7 @@ func (p *Parser) term(maxPriority Integer) (Term, error) {
 			return p.term0(maxPriority)
 		}
 		lhs = op.name.Apply(t)
+		lhsPriority = op.priority
 	case errNoOp:
 		lhs, err = p.term0(maxPriority)
 		if err != nil {
@@ -376,7 +381,7 @@ func (p *Parser) term(maxPriority Integer) (Term, error) {
 	}
 
 	for {
-		op, err := p.infix(maxPriority)
+		op, err := p.infix(maxPriority, lhsPriority)
 		if err != nil {
 			break
 		}
@@ -390,6 +395,7 @@ func (p *Parser) term(maxPriority Integer) (Term, error) {
 			}
 			lhs = op.name.Apply(lhs, rhs)
 		}
+		lhsPriority = op.priority
 	}
 
 	return lhs, nil
@@ -437,21 +443,22 @@ func (p *Parser) prefix(maxPriority Integer) (operator, error) {
 	return operator{}, errNoOp
 }
 
-func (p *Parser) infix(maxPriority Integer) (operator, error) {
+func (p *Parser) infix(maxPriority, lhsPriority Integer) (operator, error) {
 	a, err := p.op(maxPriority)
 	if err != nil {
 		return operator{}, errNoOp
 	}
 
+	// The operator is applicable if the resulting term fits in maxPriority and the left operand fits in the operator.
 	if op := p.operators[a][operatorClassInfix]; op != (operator{}) {
 		l, _ := op.bindingPriorities()
-		if l <= maxPriority {
+		if op.priority <= maxPriority && lhsPriority <= l {
 			return op, nil
 		}
 	}
 	if op := p.operators[a][operatorClassPostfix]; op != (operator{}) {
 		l, _ := op.bindingPriorities()
-		if l <= maxPriority {
+		if op.priority <= maxPriority && lhsPriority <= l {
 			return op, nil
 		}
 	}
